@@ -134,6 +134,8 @@ def run_child_opts(ck, F):
 
 def run(ck, tier):
     F = factsmod.Facts("ws")
+    from . import influence as _infl
+    _infl.run(ck, F, 'C10')
     run_child_opts(ck, F)
     run_partial(ck, F)
     run_float_native(ck, F)
